@@ -160,7 +160,7 @@ static const int CF[3] = { PH_CFG_DEFAULT, PH_CFG_WHOLEOPS, PH_CFG_GENERAL };
 
 static void c8_case(uint64_t idx, void *vctx)
 {
-    c8_ctx *c = vctx; int th = c->th;
+    c8_ctx *c = vctx; int th = c->th; uint64_t idx0 = idx;
     pixman_transform_t t; memset(&t, 0, sizeof t);
     char tdesc[160];
     if (!c->projective) {
@@ -267,7 +267,7 @@ done:
     }
     vf_count_eval(ev); vf_count_nontrivial(nt ? ev : 0);
     if (!vf_in_confirm) vf_outcome(hh);
-    if (vf_want_sample() && !vf_in_confirm && (idx & 7) == 3) vf_sample("transform %s: 4 source sizes x 4 formats x %d filters x 4 repeats x 2 request origins x 3 configurations, every destination pixel compared", tdesc, NFIL);
+    if (vf_want_sample() && !vf_in_confirm && (idx0 % 97) == 13) vf_sample("transform %s: 4 source sizes x 4 formats x %d filters x 4 repeats x 2 request origins x 3 configurations, every destination pixel compared", tdesc, NFIL);
 }
 
 int main(int argc, char **argv)
